@@ -256,6 +256,32 @@ def run_case(case):
         if case.get("sample"):
             obs["sample"] = {"name": nm, "identifiers": sorted(user)}
         return obs
+    if case["kind"] == "crunch":
+        # crunched listings: a name runs straight into the keyword behind it (FORI=ABCTO9, IFA=ABCTHEN..).  Today most of
+        # these are refused or read as one longer name; whatever is accepted must still map the name to its identifier
+        nm = case["name"]
+        text = case["template"].replace("@", nm)
+        obs["key"] = "crunch|%s|%s" % (nm, case["template"])
+        conv = harness.convert(text, initialize_vars=case.get("init", False))
+        if not conv["ok"]:
+            obs["nontrivial"] = False
+            obs["counters"]["refused" if conv["documented"] else "internal_error"] = 1
+            return obs
+        r = identifiers(conv["out"])
+        if r is None:
+            obs["nontrivial"] = False
+            obs["counters"]["unparseable_output"] = 1
+            return obs
+        ids, inf, main = r
+        user = {i for i in ids if not (i in GENERATED or i.startswith("tmp_") or i in ("display", "play"))}
+        obs["counters"]["identifiers_checked"] = len(user)
+        obs["counters"]["crunched_accepted"] = 1
+        # every identifier is a one- or two-character name (no name of the templates is longer after truncation)
+        longs = sorted(i for i in user if len(i.replace("arr_", "").rstrip("$")) > 2)
+        if longs:
+            obs["viols"].append({"sig": "C09/unexpected-identifier/long", "detail": {"source": text, "identifiers": longs,
+                                                                                    "emitted": "\n".join(conv["out"].split("\n")[-6:])}})
+        return obs
     if case["kind"] == "printarr":
         # an array element inside a PRINT list, with 0-3 blanks between the name and its parenthesis (juxtaposition is
         # legal in PRINT lists, so a name cut loose from its subscript would still parse - as a scalar)
@@ -362,6 +388,12 @@ def cases(tier, seed):
         for k in range(4):
             for sfx in ("", "$"):
                 yield {"kind": "printarr", "name": nm, "blanks": k, "suffix": sfx}
+    crunch = ["10 @=7\n20 FORI=@TO9\n30 NEXT\n", "10 @=7\n20 FORI=1TO@STEP2\n30 NEXT\n", "10 @=7\n20 FORI=1TO9STEP@\n30 NEXT\n",
+              "10 IFA=@THEN10\n", "10 IF@THEN10\n", "10 IFA=@GOTO10\n", "10 ON@GOTO10,10\n", "10 ON@GOSUB10\n20 RETURN\n",
+              "10 IFA=1THENB=@ELSEB=2\n", "10 IFA=@ORB=@THEN10\n", "10 IFA=@ANDB=1THEN10\n", "10 B=NOT@\n", "10 PRINT@;@TAB(3)\n"]
+    for nm in (["A", "AB", "ABC", "ABCD", "XY1", "K9Z", "NAME"] if tier == "quick" else ["A", "AB", "ABC", "ABCD", "XY1", "K9Z", "NAME"] + names[::37]):
+        for i, t in enumerate(crunch):
+            yield {"kind": "crunch", "name": nm, "template": t, "init": i % 2 == 0}
     rng = random.Random(seed * 31 + 9)
     n = 1500 if tier == "quick" else 250000
     for i in range(n):
